@@ -633,6 +633,77 @@ def _parameters_applied(ctx, alloc):
                construct='update applies %s' % attr)
 
 
+def _given_value_kept(ctx, alloc):
+    """C06.2: a configured value is taken whenever one is given - the
+    setters fall back to the default under `is None` only, so that a legal
+    zero (utilisation cap 0: schedule nothing from this allocation) is not
+    read as "not configured"."""
+    for sname, attr in (('set_max_utilization', 'max_utilization'),):
+        func = alloc.methods.get(sname)
+        ctx.require(func is not None, 'Allocation.%s' % sname, rule='C06.2')
+        graph = ctx.cfg(func)
+        nz = N.Normaliser()
+        facts = N.must_facts(graph, nz)
+        param = func.params()[1]
+        stores = [(n, v) for n in graph.nodes
+                  for t, v, _k in K.assigns_attr(n)
+                  if N.txt(t) == 'self.%s' % attr]
+        ctx.require(stores, 'store of %s in %s' % (attr, sname),
+                    rule='C06.2', func=func)
+        for node, val in stores:
+            cases = [(val, set())]
+            if isinstance(val, ast.IfExp):
+                tatom = nz.atom(val.test)
+                cases = [(val.body, {tatom.key}),
+                         (val.orelse, {N.negate(tatom).key})]
+            for expr, extra in cases:
+                have = set(f.key for f in facts[node]) | extra
+                given = ('is', param, 'None', False) in have
+                absent = ('is', param, 'None', True) in have
+                if N.txt(expr) == param:
+                    ok = True           # the value itself, whatever it is
+                else:
+                    ok = absent         # anything else only when none given
+                ctx.ob('C06.2', func, node, ok,
+                       '%s stores the given value; the default only when '
+                       'the value is None (stored: %s, known: %s)' % (
+                           sname, N.txt(expr),
+                           'given' if given else
+                           'None' if absent else 'nothing'),
+                       construct='%s keeps a given value' % sname)
+
+
+def _reload_order(ctx):
+    """C06.5/C06.7: an allocations event re-reads the assignment table
+    before the instances are matched against it again - the other order
+    queues every instance by the previous table until the next event."""
+    master = ctx.index.get_class(K.MASTER, 'Master')
+    func = master.methods.get('_handle_allocations_event') if master \
+        else None
+    ctx.require(func is not None, 'Master._handle_allocations_event')
+    graph = ctx.cfg(func)
+    tables = [n for n, c in K.nodes_calling(
+        graph, lambda c: K.is_meth(c, 'load_allocations'))]
+    apps = [n for n, c in K.nodes_calling(
+        graph, lambda c: K.is_meth(c, 'load_apps', 'load_app'))]
+    ctx.require(tables, 'load_allocations in the allocations event handler',
+                rule='C06.7', func=func)
+    ctx.require(apps, 'load_apps in the allocations event handler',
+                rule='C06.7', func=func)
+    for node in apps:
+        ctx.ob('C06.7', func, node,
+               K.guarded_by(graph, node, lambda e: e.src in tables and
+                            e.kind != 'exc'),
+               'the instances are re-assigned after the assignment table '
+               'was read again', construct='allocations before apps')
+    skip = K.find_path(tables[0], [graph.exit],
+                       cut_node=lambda n: n in apps, follow_exc=False)
+    ctx.ob('C06.7', func, tables[0], skip is None,
+           'every change of the allocations re-assigns the instances',
+           path=K.describe(skip) if skip else None,
+           construct='apps re-assigned after allocations')
+
+
 def _unplaced(ctx):
     loop = PlacementLoop(ctx)
     nz = loop.nz
@@ -748,6 +819,8 @@ def check(ctx):
     _sort_key(ctx, priv)
     _rank(ctx, priv)
     _parameters_applied(ctx, alloc)
+    _given_value_kept(ctx, alloc)
+    _reload_order(ctx)
     _sentinel(ctx, priv, merged)
     _layout(ctx, priv, merged)
     _exactly_once(ctx, priv, merged)
